@@ -745,12 +745,12 @@ def run(ctx, rep):
     rep.assumptions += ["attribute VALUES only flow through int(); control flow depends on presence/absence and on the enumerated "
                         "strings, so one or two representatives per attribute cover the node/bond decision tables",
                         "PARTIAL: XML parsing, KD-tree label resolution (modelled as 5 nearest in L1, ties excluded), mean_plane/SVD "
-                        "(normal = +ez on coplanar neighbours is checked differentially), accumulated out-of-plane displacements and "
-                        "the ring branch are covered by the differential run and the oracle only"]
+                        "(normal = +ez on coplanar neighbours is checked differentially) and accumulated out-of-plane displacements "
+                        "are covered by the differential run and the oracle only"]
     known = set()
 
     def found_real():
-        return any(v.sig != KNOWN_RING and not v.no_input for v in rep.violations)
+        return any(not v.no_input for v in rep.violations)
 
     # ---------------------------------------------------------------- tie T
     try:
@@ -780,8 +780,6 @@ def run(ctx, rep):
     ccases, cmeta, gcases, gmeta, rcases, rmeta = [], [], [], [], [], []
 
     def viol(sig, text, replay):
-        if sig == KNOWN_RING:
-            known.add(sig)
         rep.violate(sig, text, replay)
 
     sources = [(nm, str(getattr(ml.files, nm + "_cdxml", os.path.join(vlib.REPO, "molli", "files", nm + ".cdxml")))) for nm in BUNDLED]
